@@ -1,7 +1,7 @@
 (* C10 — Countersignatures sign the RFC 9338 structure and bind to their exact parent.
    Statements only (copied from coq/theories by bin/mkprops); each proof is `exact <lemma>`. *)
 From Coq Require Import Ascii String ZArith List Bool Permutation.
-From GoCose Require Import Bytes Cbor CborProofs Res GoVal Obs Ecdsa Fx Headers Enc Dec Msg HashEnv Key SigVer Run TbsProofs FlowProofs.
+From GoCose Require Import Bytes Cbor CborProofs Res GoVal Obs Ecdsa Fx Headers Enc Dec Msg HashEnv Key SigVer Run TbsProofs FlowProofs AskedOnce.
 From GoCose.Gen Require Import Generated.
 Import ListNotations.
 Open Scope Z_scope.
@@ -75,3 +75,15 @@ Theorem C10_csig_verify_iff :
   exists t, csig_tbs s target ext = Acc t /\ vf_run vf t (sg_sig s) = Acc tt.
 Proof. exact csig_verify_iff. Qed.
 Print Assumptions C10_csig_verify_iff.
+
+(* Countersignature.Sign never writes the holder's retained header bytes or its unprotected bucket, and changes the decoded protected bucket at most by inserting the signer's algorithm: a holder signed again after an edit is signed as edited *)
+Theorem C10_csig_sign_keeps_holder :
+  forall s sg target ext,
+  let o := csig_sign s sg target ext in
+  rawP (sg_h (out_post o)) = rawP (sg_h s) /\
+  rawU (sg_h (out_post o)) = rawU (sg_h s) /\
+  hU (sg_h (out_post o)) = hU (sg_h s) /\
+  (hP (sg_h (out_post o)) = hP (sg_h s) \/
+   (rawP (sg_h s) = None /\ hP (sg_h (out_post o)) = Some (set_alg (hmap (hP (sg_h s))) (sg_alg sg)))).
+Proof. exact csig_sign_keeps_holder. Qed.
+Print Assumptions C10_csig_sign_keeps_holder.
